@@ -768,8 +768,12 @@ func (c *Ctx) abstractCall(x *ast.CallExpr, fn *types.Func, st *State) []Val {
 	}
 	if tainted {
 		for i, r := range res {
-			if sv, ok := r.(SliceV); ok {
+			switch sv := r.(type) {
+			case SliceV:
 				sv.Prov = "input"
+				res[i] = sv
+			case ListV:
+				sv.Prov = "input" // e.g. a []bool that reinterprets the input bytes
 				res[i] = sv
 			}
 		}
